@@ -648,6 +648,37 @@ end Spine.Reg
 
 namespace Spine.Reg
 
+/-! ### AddBinding as the two halves the code as written runs in separate critical sections -/
+
+/-- first half: lookups, role / type checks, `BindingsOnFeature(server)` under the lock -/
+def bindCheck (s : St) (p : Nat) (cEnt : List Nat) (cFeat : Nat) (sEnt : List Nat) (sFeat typ : Nat) : Bool :=
+  requestOk s p cEnt cFeat sEnt sFeat typ && !s.binds.any (fun e => e.sEnt = sEnt && e.sFeat = sFeat)
+
+/-- second half: the append under the lock — no second look at the registry -/
+def bindInsert (s : St) (p : Nat) (cEnt : List Nat) (cFeat : Nat) (sEnt : List Nat) (sFeat : Nat) : St :=
+  { s with bindNum := s.bindNum + 1, binds := s.binds ++ [⟨s.bindNum + 1, sEnt, sFeat, p, cEnt, cFeat⟩] }
+
+/-- run without interruption the two halves are the sequential operation of the family -/
+theorem addBind_halves (s : St) (p : Nat) (cEnt : List Nat) (cFeat : Nat) (sEnt : List Nat) (sFeat typ : Nat) :
+    addBind s p cEnt cFeat sEnt sFeat typ =
+      if bindCheck s p cEnt cFeat sEnt sFeat typ then (bindInsert s p cEnt cFeat sEnt sFeat, true) else (s, false) := by
+  unfold addBind bindCheck bindInsert
+  by_cases h1 : requestOk s p cEnt cFeat sEnt sFeat typ = true
+  · by_cases h2 : s.binds.any (fun e => e.sEnt = sEnt && e.sFeat = sFeat) = true
+    · simp [h1, h2]
+    · have h2' : s.binds.any (fun e => e.sEnt = sEnt && e.sFeat = sFeat) = false := by simpa using h2
+      simp [h1, h2']
+  · have h1' : requestOk s p cEnt cFeat sEnt sFeat typ = false := by simpa using h1
+    simp [h1']
+
+/-- the schedule check₁ check₂ insert₁ insert₂ in the registry family: two peers with identical numbering ask for the
+    same free server feature, both checks pass on the same state, both insertions happen -/
+theorem bind_interleaving_witness :
+    let fs : List Feat := [⟨[1], 1, 1, .client⟩]
+    let s : St := { loc := [⟨[1], 1, 1, .server⟩], rem := fun _ => fs }
+    bindCheck s 1 [1] 1 [1] 1 1 = true ∧ bindCheck s 2 [1] 1 [1] 1 1 = true ∧
+    (onServer (bindInsert (bindInsert s 1 [1] 1 [1] 1) 2 [1] 1 [1] 1) [1] 1).length = 2 := by decide
+
 /-- a history of calls, drops and entity removals from empty registries over fixed announced trees -/
 def run (c : Cfg) (loc : List Feat) (rem : Nat → List Feat) (ops : List Op) : St :=
   ops.foldl (step c) { loc := loc, rem := rem }
